@@ -346,14 +346,20 @@ def rule_r2(ck, prog, suffix, g_add, rd_add, full_rel, f_add):
 
 
 def _range_value(g, rd, f, idx, ctx, env, depth=0):
+    # (depth bounds the recursion through locals, conditionals and helpers)
     """the sequence of slot numbers a CircularBufferRange-valued expression denotes under env: list of ints, or None when a part
     does not fold"""
-    if idx is None or idx < 0 or depth > 6:
+    if idx is None or idx < 0 or depth > 10:
         return None
     n = f.nodes[idx]
     k = n['k']
     if k in ('cast', 'paren'):
         return _range_value(g, rd, f, n['e'], ctx, env, depth + 1)
+    if k == 'cond':
+        c = ieval(g, rd, f, n['cnd'], ctx, env)
+        if c is None or isinstance(c, tuple):
+            return None
+        return _range_value(g, rd, f, n['a'] if c else n['b'], ctx, env, depth + 1)
     if k == 'initlist':
         out = []
         for c in n.get('ch', []):
